@@ -1,5 +1,5 @@
 """Definition-level properties: C08 ambiguity, C09 priorities, C10 literals/ignore-case, C11 subpatterns."""
-import os, sys, json, random, subprocess, time
+import os, sys, json, random, subprocess, time, re
 sys.path.insert(0, os.path.dirname(os.path.abspath(__file__)))
 from common import Run, audit, load_theorems, TRUSTED_BASE
 import pipeline as P
@@ -69,6 +69,12 @@ def check_c08(tier, seed, log=print):
         if cap is None or cap.nodump or cap.verdict not in ('ACCEPT', 'REJECT'):
             continue
         n += 1
+        # the tie search below looks at the leaves the derive built: every pattern written in the definition has to be one of them
+        written = len(re.findall(r'#\[(?:token|regex)\(', c['src'])) + len(re.findall(r'\bskip[ (]', c['src']))
+        if cap.verdict == 'ACCEPT' and len(cap.leaves) != written:
+            run.violation('leaf-dropped', dict(definition=c['src'], patterns_written=written, leaves_of_the_derive=[list(l) for l in cap.leaves],
+                                               what='a pattern written in the definition is not among the leaves of the accepted lexer: an overlap with it can neither be reported nor resolved by priority'),
+                          key='leafdrop|' + c['src'])
         v = ans.get((i, 'TIE'), '')
         if c['family'] in ('c08-look', 'c08-look-enum') and v.startswith(('TIE', 'FREE')):
             look_stats['decided'] += 1
@@ -382,6 +388,30 @@ def check_c10(tier, seed, log=print):
         if 'expect_prio' in m and m['token_leaf'] < len(cap.leaves) and cap.leaves[m['token_leaf']][0] != m['expect_prio']:
             run.violation('priority-changed', dict(definition=c['src'], priority=cap.leaves[m['token_leaf']][0], expected=m['expect_prio'],
                                                    what='ignore(case) changed something else about the definition (priority)'), key='prio|' + c['src'])
+    # "a #[token(w)] pattern matches exactly the byte string w": the lexer the derive built (its captured graph, interpreted by
+    # the Lean model) has to yield the token on w itself - and, with ignore(case), on w with its ASCII letters in the other case
+    tq = {}
+    for i, c in enumerate(cases):
+        cap, m = caps[i], c['meta']
+        if cap is None or cap.nodump or cap.verdict != 'ACCEPT' or 'token_leaf' not in m or 'lit' not in m or not m['lit']:
+            continue
+        raw = bytes.fromhex(m['lit'])
+        ws_ = [raw] + ([raw.swapcase()] if m['icase'] and raw.swapcase() != raw and (not m['unicode'] or P.is_valid_utf8(list(raw.swapcase()))) else [])
+        tq[i] = ['LEX n ' + hexs(w_) for w_ in ws_]
+    tans = lean_queries(cases, caps, tq) if tq else {}
+    lex_ok = 0
+    for i, qs_ in tq.items():
+        for q_ in qs_:
+            w_ = bytes.fromhex(q_.split(' ')[2])
+            v_ = tans.get((i, q_), '')
+            nm_ = caps[i].leaves[cases[i]['meta']['token_leaf']][3]
+            if v_.split(' ')[0] == '%s:0-%d' % (nm_, len(w_)):
+                lex_ok += 1
+            elif v_:
+                run.violation('literal-not-lexed', dict(definition=cases[i]['src'], input_hex=hexs(w_), input_text=w_.decode('utf-8', 'replace'), lexer_yields=v_,
+                                                        what='the lexer built for this definition does not yield the token on the literal\'s own text'),
+                              key='litlex|%s|%s' % (cases[i]['src'], hexs(w_)))
+    run.coverage['literals_lexed_by_the_built_lexer'] = lex_ok
     # the regex crate itself as oracle: sampled strings against the captured HIR (Lean MATCH)
     reqs, keys, lq = [], [], {}
     for i, c in enumerate(cases):
